@@ -351,3 +351,66 @@ def rule_CP1(ctx, files=None):
                                      'appears unrenamed in both at %s' % (f.loc(ch[a]), f.loc(ch[b]), x, y, c, z, f.loc(at)))
     res.analysed.update({'clone_pairs': npairs})
     return res, npairs
+
+
+def rule_NB1(ctx, files=None):
+    res = RuleResult('NB1', 'normalised copy supersedes the original: once a function makes a working copy of a string '
+                            'argument (trimmed, upper-cased, with symbols replaced), the raw argument is not read again '
+                            'except to fill that copy')
+    bt = lambda t: t.replace('const ', '').replace('&', '').strip()
+    ncopy = 0
+    seen = set()
+    for f in sorted(ctx.lib_fns(), key=lambda x: (x.file, x.line)):
+        if not _in(f, files) or f.d.get('body', -1) < 0:
+            continue
+        pd = {p['d']: p for p in f.params}
+        for i, n in f.all_nodes():
+            if n['k'] != 'DeclStmt':
+                continue
+            for dcl in n.get('decls', []):
+                if dcl.get('init', -1) < 0 or 'basic_string' not in dcl.get('t', ''):
+                    continue
+                refs = [f.nodes[j] for j in f.walk(dcl['init'])
+                        if f.nodes[j]['k'] == 'DeclRefExpr' and f.nodes[j].get('rk') in ('param', 'local', 'var')]
+                if len(refs) != 1 or refs[0].get('rk') != 'param':
+                    continue
+                p = pd.get(refs[0].get('d'))
+                if not p or p['pk'] not in ('v', 'cr') or bt(dcl['t']) != bt(p.get('t', '')):
+                    continue
+                key = (f.file, dcl['line'], dcl['name'])
+                if key in seen:
+                    continue        # other instantiations of the same template
+                seen.add(key)
+                ncopy += 1
+                bad = []
+                for j, m in f.all_nodes():
+                    if m['k'] != 'DeclRefExpr' or m.get('d') != p['d'] or m.get('l', 0) <= dcl['line']:
+                        continue
+                    ok = False
+                    for a in f.ancestors(j):
+                        an = f.nodes[a]
+                        if an['k'] == 'CXXThrowExpr':
+                            ok = True
+                        if an['k'] in ('ForStmt', 'WhileStmt') and an.get('body', -1) >= 0 and j not in set(f.walk(an['body'])):
+                            # the header of a loop whose whole body fills the copy
+                            bn = f.nodes[f.strip_casts(an['body'])]
+                            if bn['k'] in ('BinaryOperator', 'CXXOperatorCallExpr') and str(bn.get('op', '')).endswith('=') and \
+                                    bn.get('ch') and any(f.nodes[x]['k'] == 'DeclRefExpr' and f.nodes[x].get('d') == dcl['d']
+                                                         for x in f.walk(bn['ch'][0] if bn['k'] == 'BinaryOperator'
+                                                                         else (bn.get('args') or bn['ch'])[0])):
+                                ok = True
+                        if an['k'] in ('BinaryOperator', 'CompoundAssignOperator', 'CXXOperatorCallExpr') and \
+                                str(an.get('op', '')).endswith('='):
+                            lhs = an['ch'][0] if an['k'] != 'CXXOperatorCallExpr' else (an.get('args') or an['ch'])[0]
+                            if j not in set(f.walk(lhs)) and any(
+                                    f.nodes[x]['k'] == 'DeclRefExpr' and f.nodes[x].get('d') == dcl['d'] for x in f.walk(lhs)):
+                                ok = True
+                    if not ok:
+                        bad.append(j)
+                res.ob(not bad, {'fn': f.q, 'copy': dcl['name'], 'of': p['name'], 'at': f.loc(i)})
+                for j in bad[:1]:
+                    res.fail(f.q, '%s/%s' % (p['name'], dcl['name']), f.loc(j),
+                             'the raw argument %s is read at %s although the normalised copy %s (made at %s) is what the rest '
+                             'of the function works on' % (p['name'], f.loc(j), dcl['name'], f.loc(i)))
+    res.analysed.update({'normalised_copies': ncopy})
+    return res, ncopy
